@@ -236,6 +236,15 @@ def main(tier, seed):
     fbase = ops.build(eng.local_ctx(), dict(c06.BASE), [ops.create("", ["md5"]), ops.create("", ["xxh64", "md5"])])
     for variant in foreign.VARIANTS:
         inits.append(("foreign-" + variant, foreign.rewrite(fbase, variant), dict(alpha="c06", cmds=0, edits=0, max_cmds=1, max_edits=0)))
+    # what a create leaves when it is killed after the new manifest is in place and before the chain file lists it: the
+    # manifest exists, so the generation exists (generation 2 of two; generation 1 next to a chain file without entries)
+    g1 = ops.build(eng.local_ctx(), dict(c06.BASE), [ops.create("", ["md5"])])
+    g2 = ops.build(eng.local_ctx(), g1, [ops.create("", ["xxh64", "md5"])], now=sub.NOW0 - 500)
+    unl = dict(g2); unl["ascmhl/ascmhl_chain.xml"] = g1["ascmhl/ascmhl_chain.xml"]
+    inits.append(("manifest-not-yet-chained", unl, dict(alpha="c06", cmds=0, edits=0, max_cmds=0, max_edits=0)))
+    import re as _re
+    first = dict(g1); first["ascmhl/ascmhl_chain.xml"] = _re.sub(rb"<hashlist.*</hashlist>\s*", b"", g1["ascmhl/ascmhl_chain.xml"], flags=_re.S)
+    inits.append(("first-manifest-not-yet-chained", first, dict(alpha="c06", cmds=0, edits=0, max_cmds=0, max_edits=0)))
     tot = {"states": 0, "transitions": 0}
     runs = []
     for name, tree, meta in inits:
